@@ -24,3 +24,21 @@ package cardinality
 //@     pure
 //@   callee Desugar() (l)
 //@     pure
+
+// parseFields: one parsed field per non-empty selector, in order, and exactly one value
+// slot per parsed field (Do hands valsBuf to WithLabelValues: one slot too many or too
+// few and prometheus panics on the processor goroutine at the first event).
+
+//@ func parseFields
+//@   option check-nil yes
+//@   ghost nparsed int = 0
+//@   ensures result != nil && fresh(result)
+//@   ensures len(result.valsBuf) == len(result.fields)
+//@   ensures len(result.fields) == nparsed && nparsed <= len(fields)
+//@   loop 1 invariant -1 <= rangeindex && rangeindex < len(fields) && len(f) == nparsed && nparsed <= rangeindex + 1
+//@   callee ParseFieldSelector(s) (r)
+//@     requires 0 <= rangeindex && rangeindex < len(fields) && len(s) > 0 && len(s) == len(fields[rangeindex]) && seqeq(s, fields[rangeindex], 0)
+//@     pure
+//@     set nparsed := nparsed + 1
+//@   callee Join(e, sep) (r)
+//@     pure
